@@ -28,7 +28,8 @@ func (c *Ctx) genText() []byte {
 }
 
 var queryForms = []string{"?OTR?", "?OTRv2?", "?OTRv3?", "?OTRv23?", "?OTR?v2?", "?OTR?v23?", "?OTRv?", "?OTRv4?", "?OTRv24x?",
-	"?OTRv32?", "?OTRv", "?OTR", "?OTRv2", "?OTRv3? hello", "?OTRv1?", "?OTR?v", "?OTRv9923?", "?OTRv 2?", "?OTRv?3"}
+	"?OTRv32?", "?OTRv", "?OTR", "?OTRv2", "?OTRv3? hello", "?OTRv1?", "?OTR?v", "?OTRv9923?", "?OTRv 2?", "?OTRv?3",
+	"?OTRv3? this is OTR 2 or later?", "?OTRv2? 3?", "?OTR?v3? 2?", "?OTRv? 23?", "?OTRv3?2", "?OTRv3?? 2"}
 
 func genC16(c *Ctx) {
 	c.Rep.Rule = "message-type guess, query parsing, version selection, query generation and whitespace-tag handling on the full policy product (64 sets) x offer forms (incl. unknown versions, v1) x random texts, Go vs. model; pass-through oracle on the implementation; distinct by arguments"
